@@ -1018,31 +1018,8 @@ class CoseContext(AbstractContext):
                     raise ValueError(f'Cannot MAC with key having {sop.priv_key.key_ops}')
 
             else:
-                phdr = {
-                    headers.Algorithm: sop.priv_key.alg,
-                }
-                uhdr = dict()
-
-                if keyops.SignOp in sop.priv_key.key_ops:
-                    # Direct signing
-                    msg_obj = Sign1Message(
-                        phdr=phdr,
-                        uhdr=uhdr,
-                        payload=target_plaintext,
-                        # Non-encoded parameters
-                        external_aad=ext_aad_enc,
-                        key=sop.priv_key
-                    )
-                    LOGGER.debug('Signing with COSE key %s', repr(sop.priv_key))
-                    msg_enc = msg_obj.encode(
-                        tag=False
-                    )
-                    # detach payload
-                    msg_dec = cbor2.loads(msg_enc)
-                    msg_dec[2] = None
-
-                else:
-                    raise ValueError(f'Cannot sign with key having {sop.priv_key.key_ops}')
+                # only symmetric keys can protect confidentiality here
+                raise ValueError(f'Cannot encrypt with key having {sop.priv_key.key_ops}')
 
             msg_enc = cbor2.dumps(msg_dec)
             LOGGER.debug('Sending COSE message %s', encode_diagnostic(msg_dec))
